@@ -235,6 +235,8 @@ def run_family(prog, fam_name, setup, post, contracts=None, force_contract=(), b
 def props_for_label(label):
     if label.startswith("regex-literal"):
         return ["C14", "C16", "C17"]
+    if label.startswith("loop-invariant:symbolic"):
+        return ["C05", "C06", "C17"]
     if label.startswith("loop-invariant:"):
         return ["C01", "C02", "C03", "C04", "C07", "C09", "C17"]
     if label.startswith("builtin:"):
